@@ -283,3 +283,23 @@ func repoFrame(st string) string {
 	}
 	return ""
 }
+
+// RunFileTwice compiles ONE file object twice (a caller may keep a file and compile it again) and
+// reports both outcomes and whether the file's bytes are still what was put in.
+func RunFileTwice(name, content string, opt Options) (first, second Outcome, inputIntact bool) {
+	buf := []byte(content)
+	f := fs.NewFile(name, buf)
+	run := func() (out Outcome) {
+		defer func() {
+			if r := recover(); r != nil {
+				out = Outcome{Kind: "panic", Panic: fmt.Sprint(r)}
+				out.Stack = stack()
+				out.Site = repoFrame(out.Stack)
+			}
+		}()
+		return finish(kit.NewJApiFromFile(f, opt.core()...), false)
+	}
+	first = run()
+	second = run()
+	return first, second, string(buf) == content && string(f.Content()) == content
+}
